@@ -202,6 +202,32 @@ CHECKS = {
                 "are outside the claim; attributes without a harness are listed in the evidence.",
         "design": "3 C10",
     },
+    "C03": {
+        "text": "Bounded symbolic verification of GTF output: GFFPrinter.dump runs on <=3 models x <=3 exons whose coordinates are symbolic and "
+                "unconstrained (invalid chains must be dropped); the GTF text is parsed back and z3 proves: exactly the valid models printed, each "
+                "transcript/gene record once, >=1 exon, exons sorted, non-overlapping, 1<=start<=end, transcript span = first/last exon, gene "
+                "record contains its transcripts on the same chromosome, strand and gene verbatim. Reference transcripts of the catalogue loci go "
+                "through the real GeneInfo.from_models / from_reference_transcript / dump next to a novel model with symbolic ends at any list "
+                "position and come back verbatim. correct_novel_transcript_ends on <=3 supporting reads with symbolic ends never inverts an exon, "
+                "never moves a splice site and only trims to a supporting read's end. create_extended_storage for a chromosome without genes "
+                "returns exactly the novel models.",
+        "note": "Trusted: z3, symx proxies, sentinel parsing of GTF text, minimal fake gene_info / gffutils. end <= chromosome length (needs the "
+                "FASTA index), TranscriptToGeneJoiner, the gffutils-backed branch of create_extended_storage and file merge order are outside.",
+        "design": "3 C03",
+    },
+    "C06": {
+        "text": "Order- and state-independence as bounded symbolic verification: (hash seed) the group universe is handed to the counters in every "
+                "iteration order chosen by the solver and the isoform set of a compact record in every insertion order - results must be equal; "
+                "(thread schedule) the class-level state a worker inherits from earlier chromosomes/samples is arbitrary and the real "
+                "per-chromosome entry point must start clean, identifiers stay distinct for symbolic prior counters; (memory mode) the real "
+                "region grouping/splitting/retrieval code runs in default and --high_memory mode side by side on symbolic alignments and must "
+                "deliver identical sets, and the compact record read from the intermediate file equals the one built in memory. An AST scan "
+                "(re-run on the current source) lists the remaining set-iteration sites as unmodelled.",
+        "note": "Trusted: z3, symx proxies and the order shims. Byte identity of whole runs under a real process pool and merge_files on a real "
+                "file system are NOT claimed; the claim is that the listed functions are the only modelled carriers of order/state and are "
+                "order/state independent.",
+        "design": "3 C06",
+    },
 }
 
 NOT_BUILT = "check not built yet (build in progress, see DESIGN.md section 5); no claim is made"
